@@ -2001,6 +2001,92 @@ def stream_prune(chk, n):
     chk.compare("dr.run pruning", cases, impl, model)
 
 
+# ----------------------------------------------------------------------------- raw results around MAX_CONTENT_SIZE
+
+def stream_big_raw(chk, sizes_all):
+    """raw-file results whose size is around and above spec_factory.MAX_CONTENT_SIZE (the REAL constant): the persist
+    side copies every byte, the loaded SerializedRawOutputProvider must deliver exactly the persisted bytes.  The files
+    are SPARSE (a distinctive header and trailer around a hole), so collecting, copying and hashing stay cheap."""
+    from insights.core.spec_factory import MAX_CONTENT_SIZE
+    sizes = [MAX_CONTENT_SIZE + d for d in sizes_all]
+    tmp = tempfile.mkdtemp(prefix="c11big-")
+    src, out = os.path.join(tmp, "src"), os.path.join(tmp, "out")
+    os.makedirs(os.path.join(src, "big"))
+    os.makedirs(out)
+
+    def head_tail(path, nh, nt):
+        with open(path, "rb") as fh:
+            head = fh.read(nh)
+            fh.seek(-nt, os.SEEK_END)
+            return head, fh.read(nt)
+
+    def same_bytes(c, size, header, trailer):
+        """c == header + zeros + trailer, without building the expected 200 MB string: length, head, tail, and every
+        byte in between is zero (bytes.count over the hole)"""
+        mid = size - len(header) - len(trailer)
+        return (isinstance(c, bytes) and len(c) == size and c[:len(header)] == header and c[size - len(trailer):] == trailer and
+                c.count(0, len(header), size - len(trailer)) == mid)
+    try:
+        class Ctx(HostContext):
+            pass
+        mod = "c11big_%d" % uniq()
+        points, impls, want = {"__module__": mod}, {"__module__": mod}, {}
+        for n, size in enumerate(sizes):
+            name = "b%d" % n
+            header = ("C11-HEAD-%d-" % size).encode() + bytes(range(256))
+            trailer = bytes(range(255, -1, -1)) + ("-%d-C11-TAIL" % size).encode()
+            path = "/big/f%d.bin" % size
+            with open(src + path, "wb") as fh:
+                fh.truncate(size)
+                fh.seek(0)
+                fh.write(header)
+                fh.seek(size - len(trailer))
+                fh.write(trailer)
+            want[name] = (size, header, trailer, None, path)
+            points[name] = RegistryPoint(raw=True)
+            impls[name] = simple_file(path, context=Ctx, kind=RawFileProvider)
+        Specs = SpecSetMeta("Specs", (SpecSet,), points)
+        SpecSetMeta("Impl", (Specs,), impls)
+        pts = dict((name, getattr(Specs, name)) for name in want)
+        broker = dr.Broker()
+        ctx = Ctx(root=src)
+        broker[Ctx] = ctx
+        broker.add_observer(Hydration(out, ctx).make_persister(set(pts.values())))
+        dr.run(list(pts.values()), broker)
+        with open(os.path.join(out, "insights_archive.txt"), "w"):
+            pass
+        loaded, err = hydrate_archive(out, True)
+        for name, (size, header, trailer, digest, path) in want.items():
+            case = {"op": "bigraw", "delta": size - MAX_CONTENT_SIZE}
+            chk.case(("bigraw", size), True)
+            chk.count("bigraw:size = MAX_CONTENT_SIZE%+d" % (size - MAX_CONTENT_SIZE))
+            data = os.path.join(out, "data", path.lstrip("/"))
+            if not os.path.isfile(data) or os.path.islink(data):
+                chk.failure("raw result of %d bytes: no regular data file in the archive" % size, case)
+                continue
+            if os.path.getsize(data) != size or head_tail(data, len(header), len(trailer)) != (header, trailer):
+                chk.failure("raw result of %d bytes: the archive's data file has %d bytes / another head or tail" % (size, os.path.getsize(data)), case)
+                continue
+            p = None if loaded is None else loaded.get(pts[name])
+            if p is None:
+                chk.failure("raw result of %d bytes: nothing loads (%s)" % (size, err), case)
+                continue
+            try:
+                c = p.content
+            except Exception as ex:
+                chk.failure("raw result of %d bytes: the loaded provider's content raises %s" % (size, type(ex).__name__), case)
+                continue
+            if not same_bytes(c, size, header, trailer):
+                chk.failure("raw result of %d bytes (MAX_CONTENT_SIZE%+d): the loaded provider delivers %s bytes, head %s, tail %s — not the "
+                            "persisted bytes" % (size, size - MAX_CONTENT_SIZE, len(c) if hasattr(c, "__len__") else "?",
+                                                 "same" if c[:len(header)] == header else "DIFFERENT",
+                                                 "same" if c[-len(trailer):] == trailer else "DIFFERENT"), case)
+            del c
+            p._content = None
+    finally:
+        shutil.rmtree(tmp, ignore_errors=True)
+
+
 # ----------------------------------------------------------------------------- witnesses of the known findings / regression cases of the repaired ones
 
 def witness_worlds():
@@ -2053,6 +2139,7 @@ def run(chk):
     stream_prune(chk, 120 if quick else 3000)
     stream_names(chk, 400 if quick else 20000)
     stream_json(chk, 300 if quick else 20000)
+    stream_big_raw(chk, [-1, 0, 1, 4096])
 
     def fail(desc_, case, finding):
         chk.failure(desc_, case, finding=finding)
@@ -2163,6 +2250,13 @@ def replay(data):
         bad = not lines_equal_up_to_one_trailing_empty(c["lines"], got)
     elif c.get("op") == "read":
         bad = False
+    elif c.get("op") == "bigraw":
+        from harness.common import Check
+        probe = Check("C11", "quick", 0)
+        stream_big_raw(probe, [c["delta"]])
+        for f_ in probe.failures:
+            print("ORACLE:", f_["desc"])
+        bad = bool(probe.failures)
     elif c.get("op") == "norm":
         f, s = c["factory"], c["save_as"]
         got = {"f": lambda: simple_file("/nope", save_as=s), "d": lambda: glob_file("/nope/*", save_as=s),
